@@ -195,4 +195,33 @@ def evalSupersampled (f : List K → K) (sep : List (List K)) (ns : List Nat) : 
 
 end
 
+/-! ### the dithered sub-grids themselves (round 6, seeded class C18-11)
+
+`evaluate_supersampled` hands the generator one grid per dither: `grid.__class__(SeparatedCoords(x + d_k·δ))` — the
+same class (coordinate system) as the grid, every axis shifted by the dither times the local cell widths. -/
+
+/-- the class of a grid object = its coordinate system -/
+inductive Sys where
+  | cartesian | polar | base
+deriving DecidableEq, Repr
+
+/-- a grid with separated coordinates (x-axis first) and its class -/
+structure SGrid (K : Type) where
+  sys : Sys
+  sep : List (List K)
+
+section
+variable {K : Type} [Add K] [Zero K] [Mul K] [Div K] [Sub K] [NatCast K]
+
+/-- the sub-grid for the dither `d` (one offset per axis) -/
+def ditherGrid (g : SGrid K) (d : List K) : SGrid K :=
+  { sys := g.sys
+    sep := List.zipWith (fun ax dk => List.zipWith (fun x w => x + dk * w) ax (deltas ax)) g.sep d }
+
+/-- all sub-grids, in the order of `make_uniform_grid(oversampling, 1).points` (x fastest) -/
+def subGrids (g : SGrid K) (ns : List Nat) : List (SGrid K) :=
+  (gridPts (ns.map dithers1)).map (ditherGrid g)
+
+end
+
 end HcipyVerif.Binning
